@@ -491,7 +491,7 @@ def eval_object(ctx, spec, data, placements):
     except BaseException as ex:  # noqa: BLE001
         # C15 is about objects that build; failures to build valid inputs belong to C01-C06
         ctx.monitor("unbuildable_skipped")
-        ctx.note(f"skipped (does not build standalone): {desc}: {type(ex).__name__}: {str(ex)[:100]}")
+        ctx.note(f"skipped (does not build standalone, not a C15 matter): {histogram_family(spec)}: {type(ex).__name__}: {str(ex)[:80]}")
         return True
     is_gate = not isinstance(obj, QuantumCircuit)
     w_decl = obj.num_qubits
